@@ -184,6 +184,7 @@ template <class M> inline void set_final(M& m, bool f) { if constexpr (has_set_f
 struct ReplayStats {
   std::string cfg;
   long behaviours = 0, steps = 0, skipped = 0, deviations = 0, group = -1;
+  std::vector<std::string> hist;  // operations of the current behaviour executed before the step being checked
 };
 
 struct ReplayCtx {
@@ -202,7 +203,11 @@ bool check_step(Model& m, const bj::object& act, const bj::object& got_act, cons
   bj::value cg = canon(bj::value(got_act));
   for (auto& p : cg.as_object()) {
     auto it = ca.as_object().find(p.key());
-    if (it == ca.as_object().end()) continue;
+    if (it == ca.as_object().end()) {
+      // an exception the specification does not announce is a deviation of its own
+      if (p.key() == "exception") d.push_back({"act.exception", nullptr, p.value()});
+      continue;
+    }
     diff(it->value(), p.value(), std::string("act.") + std::string(p.key()), d);
   }
   bj::object obs = m.observe();
@@ -222,6 +227,7 @@ bool check_step(Model& m, const bj::object& act, const bj::object& got_act, cons
     o["step"] = step;
     o["phase"] = phase;
     o["act"] = act;
+    { bj::array h; for (auto& x : st.hist) h.emplace_back(x); o["hist"] = h; }
     bj::array da;
     for (auto& x : d) da.push_back(bj::object{{"path", x.path}, {"exp", x.exp}, {"got", x.got}});
     o["diffs"] = da;
@@ -279,14 +285,17 @@ void replay_config_inproc(ReplayCtx& ctx) {
     {
       Model m;
       int step = 0;
+      st.hist.clear();
       for (auto& sv : path) {
         const bj::object& s = sv.as_object();
         crash_ctx().where = st.cfg + " g=" + std::to_string(gi) + " path u=" + std::to_string(u) + " step=" + std::to_string(step);
         set_final(m, edges.empty() && step + 1 == static_cast<int>(path.size()));
         bj::object got;
         try { got = m.apply(s.at("act").as_object()); } catch (const std::exception& e) { got["exception"] = e.what(); }
+        if (got.contains("inapplicable")) { path_ok = false; break; }  // the configuration cannot go on (not a deviation)
         st.steps++;
         if (!check_step(m, s.at("act").as_object(), got, ctx.states[s.at("to").as_int64()], ctx, st, u, -1, step, "path")) { path_ok = false; break; }
+        st.hist.emplace_back(s.at("act").as_object().at("op").as_string());
         ++step;
       }
     }
@@ -298,12 +307,17 @@ void replay_config_inproc(ReplayCtx& ctx) {
       std::int64_t k = e.at("k").as_int64();
       Model m;
       if (!m.applicable(act) || !m.state_ok(ctx.states[e.at("to").as_int64()].as_object())) { st.skipped++; continue; }
+      st.hist.clear();
+      for (auto& sv : path) st.hist.emplace_back(sv.as_object().at("act").as_object().at("op").as_string());
       set_final(m, false);
-      for (auto& sv : path) m.apply(sv.as_object().at("act").as_object());
+      bool inapp = false;
+      for (auto& sv : path) if (m.apply(sv.as_object().at("act").as_object()).contains("inapplicable")) inapp = true;
+      if (inapp) { st.skipped++; continue; }
       set_final(m, true);
       crash_ctx().where = st.cfg + " g=" + std::to_string(gi) + " edge u=" + std::to_string(u) + " k=" + std::to_string(k);
       bj::object got;
       try { got = m.apply(act); } catch (const std::exception& ex) { got["exception"] = ex.what(); }
+      if (got.contains("inapplicable")) { st.skipped++; continue; }
       st.steps += path.size() + 1;
       st.behaviours++;
       check_step(m, act, got, ctx.states[e.at("to").as_int64()], ctx, st, u, k, static_cast<int>(path.size()), "edge");
